@@ -111,6 +111,22 @@ def run(repo: Repo, rep: Report, tier: str) -> None:
     dom15 = any(g15.dominates(k, inl15[0]) for k in keeps15)
     rep.check(declines15 or dom15, "C02-R15", "a constant with member signals is kept as a combinator", "can_inline_constant declines" if declines15 else "kept before the inlining decision" if dom15 else
               "the inlining decision does not look at `.signals`: an unnamed bundle literal with consumers is replaced by its `value`, 0", dm15.loc(inl15[0]))
+    rep.rule("C02-R16", "the bundle side of a gate is kept apart from the condition whatever the bundle is made of: a merged bundle `{b1, b2}` has no entity, its parts are wired to "
+             "the gate, so the gating lock walks the merge junctions down to producing entities (a lock keyed by the merge id binds nothing); and the gate's pass-through "
+             "colour is whatever the planner answers for that operand, fallbacks included, not a constant default when no edge carries the operand's own name")
+    dl16 = repo.func("LayoutPlanner._determine_locked_wire_colors")
+    walks16 = [n for n in walk_local(dl16.node) if isinstance(n, (ast.While, ast.For)) and any("_wire_merge_junctions" in norm(x) for x in ast.walk(n))]
+    from .util import cguards as _cg16
+    gate_locks16 = [n for n in walk_local(dl16.node) if isinstance(n, ast.Assign) and isinstance(n.targets[0], ast.Subscript) and isinstance(n.value, ast.Constant) and n.value.value == "green"
+                    and any(pol and "output_value_signal_id" in g for g, pol in _cg16(dl16, n))]
+    in_loop16 = [n for n in gate_locks16 if any(isinstance(p_, ast.For) for p_ in _ancestors16(dl16.node, n))]
+    ok16 = bool(walks16) and bool(in_loop16)
+    rep.check(ok16, "C02-R16", "_determine_locked_wire_colors: the gating lock is set for every producer of a merged bundle", "junctions expanded; one lock per producer" if ok16 else
+              "the lock is keyed by the bundle's own node id: for `(lvl > 3) : {b1, b2}` that is a merge id no edge starts from, the parts stay on the condition's wire and the gate passes lvl through", dl16.loc(gate_locks16[0]) if gate_locks16 else dl16.loc())
+    iov16 = repo.func("LayoutPlanner._inject_output_value_wire_color")
+    consts16 = [n for n in walk_local(iov16.node) if isinstance(n, ast.Assign) and isinstance(n.targets[0], ast.Name) and n.targets[0].id == "color" and isinstance(n.value, ast.Constant) and isinstance(n.value.value, str)]
+    rep.check(not consts16, "C02-R16", "_inject_output_value_wire_color never answers with a constant colour", "every colour comes from the connection planner" if not consts16 else
+              f"`{norm(consts16[0])}` stands whenever no edge carries the operand's own name: the gate then copies from red although a merged bundle arrives on green", iov16.loc(consts16[0]) if consts16 else iov16.loc())
     rep.rule("C02-R14", "a wildcard compared with a signal does not count that signal: `any(b) CMP k` / `all(b) CMP k` is a decider whose first operand is signal-anything / "
              "signal-everything; the placement raises the separation flag for it, and the planner then brings the scalar in on green as it does for a bundle filter")
     pa = ep.methods["_place_arithmetic"]
@@ -351,3 +367,13 @@ def run(repo: Repo, rep: Report, tier: str) -> None:
     # ---------------- R13 --------------------------------------------------------------
     _borrow2(repo, rep, "C01", "C01-R4", "C02-R13", "a filter or gate whose scalar stands on the left (`(3 < b) : b`, `(3 == k) : b`) reads that scalar on its own wire: in the mirrored "
              "form the operand that moves to the first slot takes its wire selection with it", select=lambda o: "mirrored" in o.construct or "_operand_wires" in o.construct, floor=3)
+
+
+def _ancestors16(root: ast.AST, node: ast.AST) -> list[ast.AST]:
+    pm = parents_map(root)
+    out = []
+    cur = node
+    while cur in pm:
+        cur = pm[cur]
+        out.append(cur)
+    return out
